@@ -768,6 +768,7 @@ class World:
             self.sibling = TransferManager(self.s3, cfg, osutil)
         script = sc.get('driver') or self.default_script()
         use_with = any(a[0] in ('with_raise', 'use_with') for a in script)
+        self._in_with = use_with
         try:
             if use_with:
                 n0 = [None]
@@ -872,7 +873,15 @@ class World:
                     ev['returned'] = sim.stamp()
                     ev['first'] = first
             elif op == 'result':
-                self._collect(self.transfers[a[1]])
+                try:
+                    self._collect(self.transfers[a[1]])
+                except KeyboardInterrupt as e:
+                    if getattr(self, '_in_with', False):
+                        raise      # leaves the with-block, as in an application
+                    # (a Ctrl-C that found the caller still waiting for a result
+                    # although shutdown had been asked for: only on a tree where
+                    # transfers do not finish; the caller carries on)
+                    self.driver_log.append((sim.stamp(), 'result_kbi', repr(e)))
             elif op == 'interrupt_at':
                 sim.interrupt_at_step = a[1]
             elif op == 'shutdown':
